@@ -28,6 +28,7 @@ RULE = (
     "viewBox or a non-identity shape transform and >= 2 shapes; distinct by the case."
 )
 ASSUMPTIONS = [
+    'fill-opacity and stroke-opacity are generated on every level including values of exactly 1 (a shape resetting what its container says)',
     "geometry bound: 2e-6 x (1 + |local coordinates|) x max(1, |viewport linear part|) per coordinate (matrices are written "
     "with six decimals), plus the 12-digit bound of path data; arcs additionally carry the six-digit radii of C07's "
     "known finding and are compared at 1e-5 relative",
